@@ -223,7 +223,7 @@ def main(tier, seed):
 
     crosscheck.attach(rep, seed)
     rep.assumed_contract("core field functions are linear in their excitation argument: PROVED here (linearity typing of the real code's term) for magnet_cuboid_Bfield, "
-                         "triangle_Bfield, dipole_Hfield; ASSUMED for current_circle_Hfield, current_polyline_Hfield")
+                         "triangle_Bfield, dipole_Hfield, current_polyline_Hfield, current_circle_Hfield (cel_iter as a row-wise stub)")
     rep.assume("Cylinder / CylinderSegment / TriangularMesh linearity: numeric stand-in only (polarization re-parametrised through "
                "arctan2/sqrt before the core; mesh wrapper outside the row-generic subset)")
     rep.assume("sumup = np.sum(axis=0) by NumPy's contract; the collection slice-sum/delete loop is proved by an inductive invariant (checks/c05_loop.py); "
@@ -262,5 +262,5 @@ def main(tier, seed):
     # level-2 evaluation for all path lengths and pixel counts (checks/l2sym.py): collection entries are the sums over their leaves; sumup is the sum over entries
     from checks import l2sym
 
-    l2sym.report_fails(rep, l2sym.run(rep, tier, fams=['C', 'D'], stride={'C': 2}))
+    l2sym.report_fails(rep, l2sym.run(rep, tier, fams=['C', 'D'], stride={'C': 2}, kinds=("element", "shape", "safety")))
     return rep.finish()
